@@ -22,7 +22,8 @@ RULE = (
     "types, assignment into a differentiated array (x[i]=v, x[i]+=v, np.put/place/copyto/fill_diagonal/putmask), mixed rule/no-rule "
     "arguments of one primitive; plus the explicit unsupported-option guards under the three-way oracle. Non-trivial = an applicable "
     "pair; distinct by (callable, template, shape); callables with no applicable template are listed in the evidence."
-    ' Guards added later: UPLO spellings, where= / initial= keywords, NumPy-2 aliases (with a plain-array result check); contracts for grad_and_aux / make_hvp / hessian_*_product outputs; sweep partners with exact zeros.'
+    ' Guards added later: UPLO spellings, where= / initial= keywords, NumPy-2 aliases (with a plain-array result check); contracts for grad_and_aux / make_hvp / hessian_*_product outputs; sweep partners with exact zeros; whole-axis (s=-1) and odd explicit lengths of the inverse real FFTs.'
+    ' foreign_inputs: numpy.ma.MaskedArray / numpy.matrix arguments through five operators and seven functions: raise, or match central differences of the function on that type.'
 )
 
 EXCLUDE = {
